@@ -133,21 +133,6 @@ Proof. destruct s; reflexivity. Qed.
 Lemma du_is_node t sm : is_mapping (du t (Node sm)) = true.
 Proof. destruct t; [reflexivity | rewrite du_node; reflexivity]. Qed.
 
-(* Config.du solves the recursion equation translated from the source of deep_update *)
-Theorem du_satisfies_translated_equation t s : du t s = deep_update_step du t s.
-Proof.
-  unfold deep_update_step, cv_copy, cv_deepcopy.
-  destruct t as [d a|tm]; cbn [is_mapping].
-  - apply du_leaf_target.
-  - destruct s as [d a|sm]; [reflexivity|].
-    rewrite du_node. cbn [cv_items].
-    revert tm. induction sm as [|[k v] sm IH]; intro tm; [reflexivity|].
-    cbn [fold_left du_fold fst snd].
-    destruct v as [d a|m]; cbn [is_mapping].
-    + rewrite assign_spec. rewrite <- IH. unfold du_item. rewrite assign_spec. reflexivity.
-    + unfold cv_setitem, cv_get_or, cv_getitem, cv_items. rewrite <- IH. unfold du_item. reflexivity.
-Qed.
-
 (* ---- per-key law --------------------------------------------------------------------------- *)
 Lemma du_item_get_same tm k v : dget k (du_item du tm k v) = merge1 (dget k tm) (Some v).
 Proof.
@@ -420,4 +405,24 @@ Proof.
   intros H1 H2 E. destruct t as [d a|tm].
   - cbn [du cv_items]. apply E.
   - rewrite !du_node. cbn [cv_items]. rewrite !du_fold_get by assumption. rewrite E. reflexivity.
+Qed.
+
+(* Config.du solves the recursion equation translated from the source of deep_update (for documents with unique keys, which
+   is what a Python dict is).  The branch "target is not a mapping" is `copy.deepcopy(source)` or, once the copy is rebuilt
+   key by key, `deep_update({}, copy.deepcopy(source))`: value-wise both are the source itself (du_into_empty_is_copy). *)
+Theorem du_satisfies_translated_equation t s : wf s = true -> du t s = deep_update_step du t s.
+Proof.
+  intros Hwf. unfold deep_update_step, cv_copy, cv_deepcopy.
+  destruct t as [d a|tm]; cbn [is_mapping].
+  - destruct s as [d' a'|sm]; cbn [is_mapping]; [reflexivity|].
+    rewrite du_leaf_target.
+    first [ reflexivity
+          | symmetry; apply du_into_empty_is_copy; [exact Hwf | reflexivity] ].
+  - destruct s as [d a|sm]; [reflexivity|].
+    rewrite du_node. cbn [cv_items].
+    clear Hwf. revert tm. induction sm as [|[k v] sm IH]; intro tm; [reflexivity|].
+    cbn [fold_left du_fold fst snd].
+    destruct v as [d a|m]; cbn [is_mapping].
+    + rewrite assign_spec. rewrite <- IH. unfold du_item. rewrite assign_spec. reflexivity.
+    + unfold cv_setitem, cv_get_or, cv_getitem, cv_items. rewrite <- IH. unfold du_item. reflexivity.
 Qed.
